@@ -306,6 +306,25 @@ def pair_sessions(progs):
     return out
 
 
+def scale_sessions(tier):
+    """sessions of hundreds of lines, lines of hundreds of commands, state of hundreds of values / labels carried along"""
+    from . import scale
+    q = tier == 'quick'
+    progs = [scale.deep_program(1, 65, 65), scale.deep_program(3, 257, 258), scale.many_labels(65, 7),
+             scale.many_labels(257, 5, same_heart=True), scale.straight(520), scale.loop_program(150) + ' 항.']
+    if not q:
+        progs += [t for t in scale.scale_programs('quick')[::5]]
+    out = []
+    for t in progs:
+        cmds = split_commands(t)
+        out.append(cmds)                                         # one command per line
+        for k in ((16, 65) if q else (8, 16, 17, 64, 65, 256, 257)):
+            out.append([' '.join(cmds[i:i + k]) for i in range(0, len(cmds), k)])
+        h = len(cmds) // 2
+        out.append(cmds[:h] + ['clear'] + cmds)                  # a long session abandoned, then the whole again
+    return out
+
+
 def run_c12(tier):
     ALL_CUTTINGS_UPTO[0] = 9 if tier == 'quick' else 15
     st = Stats()
@@ -330,6 +349,10 @@ def run_c12(tier):
     nl2 = '%s 항.. ' % push(10) + ' '.join(['%s 항..' % P66] * 1100)
     tasks.append(('sessions', 'newline-long', [[nl], [nl2], ['%s 항.' % push(10), ' '.join(['%s 항.' % P65] * 1100)],
                                              [nl, 'clear', nl2]]))
+    sc = scale_sessions(tier)
+    info['size-ladder'] = {'sessions': len(sc), 'longest_session_lines': max(len(x) for x in sc)}
+    for i in range(0, len(sc), 2):
+        tasks.append(('sessions', 'scale', sc[i:i + 2]))
     n = 3 if tier == 'quick' else 4
     alpha = A20
     for L in range(0, n + 1):
